@@ -722,6 +722,27 @@ def extract(repo, old_sections):
                     fail('read_stream: unexpected exception caught around decode_dict: ' + n)
                 rc.append('XRecursionError')
         emit('Definition ex_read_convert_catches : list ex_exc := [' + '; '.join(rc) + '].')
+        # which 'pieces' values are taken out before decoding and put back raw
+        strip = [n for n in ast.walk(f) if isinstance(n, ast.If) and any("metainfo_enc[b'info'].pop(b'pieces')" in ast.unparse(x) for x in n.body)]
+        if len(strip) != 1:
+            fail("read_stream: the 'pieces' extraction was not found")
+        test = ' '.join(ast.unparse(strip[0].test).split())
+        body = [' '.join(ast.unparse(x).split()) for x in strip[0].body]
+        orelse = [' '.join(ast.unparse(x).split()) for x in strip[0].orelse]
+        if body != ["pieces = metainfo_enc[b'info'].pop(b'pieces')", 'metainfo = utils.decode_dict(metainfo_enc)', "metainfo['info']['pieces'] = pieces"] \
+                or orelse != ['metainfo = utils.decode_dict(metainfo_enc)']:
+            fail("read_stream: unexpected statements around the 'pieces' extraction: " + '; '.join(body + orelse)[:300])
+        pre = "b'info' in metainfo_enc and isinstance(metainfo_enc[b'info'], dict) and "
+        if test == pre + "(b'pieces' in metainfo_enc[b'info'])" or test == pre + "b'pieces' in metainfo_enc[b'info']":
+            any_val = 'true'
+        elif test == pre + "isinstance(metainfo_enc[b'info'].get(b'pieces'), (bytes, bytearray))":
+            any_val = 'false'
+        else:
+            fail("read_stream: unexpected condition of the 'pieces' extraction: " + test[:300])
+        if rec and strip[0] not in list(ast.walk(rec[0])):
+            fail("read_stream: the 'pieces' extraction is outside the try that catches RecursionError")
+        emit("(* read_stream keeps info['pieces'] undecoded: for every value (true) or only for byte strings (false) *)")
+        emit(f'Definition ex_read_strips_any_pieces : bool := {any_val}.')
         cd = [t for t in tries if any("torrent.creation_date = metainfo_enc[b'creation date']" in ast.unparse(x) for x in t.body)]
         cc = []
         if cd:
